@@ -2,6 +2,7 @@
 C19 — unstable features are gated; stable ones never are.
 -/
 import Just.Model.Unstable
+import Just.Generated.Tables
 namespace Just.Props.C19
 open Just Just.Unstable
 
@@ -336,6 +337,14 @@ theorem fallback_stable_never_refused (flag : Bool) (env : Option String) :
 /-- non-vacuity: child with `set fallback` and `set unstable`, parent using `[script]` -/
 example : runFallback false none
     [⟨.mk [] false false true [], false, true⟩, ⟨.mk [] true false false [], true, false⟩] 0 = .refused 1 := by
+  decide
+
+/-- **the gated features are the documented ones**: `enum UnstableFeature`, read from
+src/unstable_feature.rs on every run, has exactly the five features the statement names (`--fmt`,
+`&&` / `||`, `[script]`, `script-interpreter`, `which()`) — a sixth gated feature, or one dropped
+from the gate, breaks this theorem -/
+theorem gated_features_are_documented :
+    [Feature.fmt, .logical, .script, .scriptInterpreter, .which].map Feature.variant = Generated.unstableFeatures := by
   decide
 
 end Just.Props.C19
